@@ -20,6 +20,19 @@ pub fn drive(log: &mut Log) {
         let mut m: AnnotMap<String, u32> = AnnotMap::new();
         let mut ml: AnnotMap<String, Contig<String, ReqStrand>> = AnnotMap::new();
         let use_loc = rng.chance(1, 4);
+        // a third of the runs live on a coarse coordinate grid: every coordinate and length is multiplied
+        // by 2^28 before it reaches the map (lengths beyond 2^32, starts beyond +-2^33) and results are
+        // divided again -- the overlap relation is invariant under the scaling, so the log and the
+        // specification see the small numbers
+        let scale: isize = if rng.chance(1, 3) {
+            log.oblige("annot_lengths_beyond_2p32");
+            1 << 28
+        } else {
+            1
+        };
+        let unscale = move |v: isize| -> i64 {
+            if v % scale == 0 { (v / scale) as i64 } else { 999_999_999 }
+        };
         log.call("new", json!({"insert_loc": use_loc as u8}), || json!({}));
         let nops = rng.range(1, 40);
         let mut id = 0u32;
@@ -34,7 +47,7 @@ pub fn drive(log: &mut Log) {
                     continue;
                 }
                 let strand = if rng.coin() { ReqStrand::Forward } else { ReqStrand::Reverse };
-                let c = Contig::new(refs[r].to_string(), s as isize, len, strand);
+                let c = Contig::new(refs[r].to_string(), s as isize * scale, len * scale as usize, strand);
                 log.call("insert", json!({"ref": refs[r], "s": s, "len": len, "d": if use_loc {0} else {id}}), || {
                     if use_loc {
                         ml.insert_loc(c.clone());
@@ -51,15 +64,15 @@ pub fn drive(log: &mut Log) {
                 }
                 let s = rng.range(-25, 70);
                 let len = rng.range(1, 40) as usize;
-                let q = Contig::new(refs[r].to_string(), s as isize, len, ReqStrand::Forward);
+                let q = Contig::new(refs[r].to_string(), s as isize * scale, len * scale as usize, ReqStrand::Forward);
                 log.call("find", json!({"ref": refs[r], "s": s, "len": len}), || {
                     let res: Vec<Value> = if use_loc {
                         ml.find(&q)
-                            .map(|e| json!([e.interval().start, e.interval().end, 0, e.refid()]))
+                            .map(|e| json!([unscale(e.interval().start), unscale(e.interval().end), 0, e.refid()]))
                             .collect()
                     } else {
                         m.find(&q)
-                            .map(|e| json!([e.interval().start, e.interval().end, *e.data(), e.refid()]))
+                            .map(|e| json!([unscale(e.interval().start), unscale(e.interval().end), *e.data(), e.refid()]))
                             .collect()
                     };
                     let cnt = if use_loc { ml.find(&q).count() } else { m.find(&q).count() };
